@@ -124,7 +124,9 @@ def read_model_parameters(
             clock_struct.time_span,
             weather_df,
         )
-        mature = int(crop_calendar.MaturityCD + 30)
+        # the date is kept as month/day and seasons recur every year: the latest
+        # harvest date is at most the day before the next planting date
+        mature = min(int(crop_calendar.MaturityCD + 30), 364)
         plant = pd.to_datetime("1990/" + crop.planting_date)
         harv = plant + np.timedelta64(mature, "D")
         new_harvest_date = str(harv.month) + "/" + str(harv.day)
